@@ -112,6 +112,9 @@ function sameNameGrid() {
             : `import * as NA from "./a";\nimport * as NB from "./b";\nexport const Parsers = parse.buildParsers<{ P: ${wrap(K.use("NA.E"), K.use("NB.E"))} }>();\n`;
         if (style === "namespace" && kind === "const-typeof") continue; // typeof NA.E is a value path, not in the grammar beff documents
         out.push({ id: `same-name:${kind}:${style}:${shape}`, single, files: { "entry.ts": entry, "a.ts": fa, "b.ts": fb }, values: [val("a1", "b1"), val("b1", "b1"), val("a1", "a1"), val("b1", "a1")], collision: true });
+        // the same two modules under paths that give one identifier once `/`, `-`, `.` have become `_`
+        if (shape === "fields")
+          out.push({ id: `same-name:${kind}:${style}:paths-that-collide`, single, files: { "entry.ts": entry.replace('"./a"', '"./m/x-y"').replace('"./b"', '"./m_x_y"'), "m/x-y.ts": fa, "m_x_y.ts": fb }, values: [val("a1", "b1"), val("b1", "b1"), val("a1", "a1"), val("b1", "a1")], collision: true });
       }
   return out;
 }
